@@ -55,6 +55,13 @@ def run(ctx):
         d, p, s_init = C.lib_world(ctx, W)
     except Exception as e:
         raise Violation("C14/generated-input-rejected", "DomainParser/ProblemParser", f"{type(e).__name__}: {e}")
+    # the same domain declared with other parameter names in its predicate / function declarations (an observer's copy
+    # of the domain): states built through it denote the same values
+    try:
+        d_alt = C.parse_domain(ctx, G.render_domain(W.D, decl_var="?w"), "domain-alt.pddl")
+        p_alt = C.parse_problem(ctx, W.problem_text(), d_alt, "problem-alt.pddl")
+    except Exception as e:
+        raise Violation("C14/generated-input-rejected", "DomainParser/ProblemParser", f"{type(e).__name__}: {e}")
     pool = []  # [state, abstract, route]
     values = [interp.init_state(W.P)]
     for _ in range(1 + ops.draw(2)):
@@ -73,27 +80,33 @@ def run(ctx):
             kind = 6 + ops.draw(2)  # only mutate / re-check when the pool is full
         if kind == 0:  # problem parser, permuted init section
             A = ops.pick(values)
+            alt = ops.chance(1, 3)
             try:
-                pr = C.parse_problem(ctx, W.problem_text(A, order=ops), d, f"p{step}.pddl")
+                pr = C.parse_problem(ctx, W.problem_text(A, order=ops), d_alt if alt else d, f"p{step}.pddl")
             except Exception as e:
                 raise Violation("C14/generated-input-rejected", "ProblemParser", f"{type(e).__name__}: {e}")
-            add(C.initial_state(pr), A, "problem")
+            add(C.initial_state(pr), A, "problem" + (":alt-domain" if alt else ""))
         elif kind in (1, 2):  # trajectory parser on the serialization of a pool member
             src = ops.pick(pool)
             with_objects = kind == 1
+            alt = ops.chance(1, 3)
             try:
                 ast = L().PDDLTokenizer(pddl_str=src[0].serialize()).parse()
-                tp = L().TrajectoryParser(d, p if with_objects else None)
+                tp = L().TrajectoryParser(d_alt if alt else d, (p_alt if alt else p) if with_objects else None)
                 st = tp.parse_state(ast[1:])
             except Exception as e:
                 raise Violation("C14/serialization-not-readable-by-library", "TrajectoryParser.parse_state",
                                 f"{type(e).__name__}: {e}: {C.short(src[0].serialize(), 160)}")
-            add(st, src[1], "trajectory" + (":objects" if with_objects else ":deduced"))
+            add(st, src[1], "trajectory" + (":objects" if with_objects else ":deduced") + (
+                "+alt-domain" if alt or "alt-domain" in src[2] else ""))
         elif kind == 3:  # copy
             src = ops.pick(pool)
-            add(src[0].copy(), src[1], "copy")
-        elif kind in (4, 5):  # successor
-            src = ops.pick(pool)
+            add(src[0].copy(), src[1], "copy" + ("+alt-domain" if "alt-domain" in src[2] else ""))
+        elif kind in (4, 5):  # successor (of a state that was built through the operator's own domain object)
+            cands = [e for e in pool if "alt-domain" not in e[2]]
+            if not cands:
+                continue
+            src = ops.pick(cands)
             r = None
             for _ in range(5):
                 c = G.gen_call(ops, W.D, W.P)
@@ -119,7 +132,7 @@ def run(ctx):
         else:  # copy-then-mutate (or mutate an existing member in place)
             src = ops.pick(pool)
             if ops.chance(2, 3) and len(pool) < 8:
-                target = [src[0].copy(), src[1], "mutated-copy"]
+                target = [src[0].copy(), src[1], "mutated-copy" + ("+alt-domain" if "alt-domain" in src[2] else "")]
                 pool.append(target)
             else:
                 target = src
